@@ -60,9 +60,33 @@ static ENABLED: AtomicBool = AtomicBool::new(true);
 static ALLOCS: AtomicU64 = AtomicU64::new(0);
 static FREES: AtomicU64 = AtomicU64::new(0);
 
+const PENDING_MAX: usize = 256;
+
+/// Allocator calls made while this thread is inside the tracker (its own
+/// bookkeeping allocations, or data built by the query functions that outlives
+/// the query) are logged here and applied to the block table when the
+/// outermost tracker section ends. They are tagged HARNESS.
+struct Pending {
+    /// (is_alloc, addr, size) in call order.
+    ops: [(bool, usize, usize); PENDING_MAX],
+    n: usize,
+}
+
 thread_local! {
     static IN_TRACKER: Cell<bool> = const { Cell::new(false) };
     static SCOPE: Cell<u8> = const { Cell::new(TAG_HARNESS) };
+    static PENDING: std::cell::UnsafeCell<Pending> = const { std::cell::UnsafeCell::new(Pending { ops: [(false, 0, 0); PENDING_MAX], n: 0 }) };
+}
+
+fn pend(is_alloc: bool, addr: usize, size: usize) {
+    let _ = PENDING.try_with(|p| {
+        // SAFETY: thread local, never borrowed across calls.
+        let p = unsafe { &mut *p.get() };
+        if p.n < PENDING_MAX {
+            p.ops[p.n] = (is_alloc, addr, size);
+            p.n += 1;
+        }
+    });
 }
 
 fn enter() -> bool {
@@ -79,6 +103,54 @@ fn enter() -> bool {
 }
 
 fn leave() {
+    // Apply what was logged while inside (may log more: loop).
+    loop {
+        let batch = PENDING
+            .try_with(|p| {
+                let p = unsafe { &mut *p.get() };
+                let n = p.n;
+                let mut ops = [(false, 0usize, 0usize); PENDING_MAX];
+                ops[..n].copy_from_slice(&p.ops[..n]);
+                p.n = 0;
+                (ops, n)
+            })
+            .unwrap_or(([(false, 0, 0); PENDING_MAX], 0));
+        let (ops, n) = batch;
+        if n == 0 {
+            break;
+        }
+        // Net out alloc/free pairs inside the batch: applying them would
+        // only perturb the block table (whose own node allocations show up
+        // here), which can ping-pong forever.
+        let mut dead = [false; PENDING_MAX];
+        for i in 0..n {
+            if !ops[i].0 {
+                for j in (0..i).rev() {
+                    if !dead[j] && ops[j].0 && ops[j].1 == ops[i].1 {
+                        dead[j] = true;
+                        dead[i] = true;
+                        break;
+                    }
+                }
+            }
+        }
+        if (0..n).all(|i| dead[i]) {
+            continue;
+        }
+        with_state(|s| {
+            for (i, &(is_alloc, addr, size)) in ops[..n].iter().enumerate() {
+                if dead[i] {
+                    continue;
+                }
+                if is_alloc {
+                    let serial = SERIAL.fetch_add(1, Ordering::Relaxed);
+                    s.blocks.insert(addr, Block { addr, size, serial, tag: TAG_HARNESS });
+                } else {
+                    s.blocks.remove(&addr);
+                }
+            }
+        });
+    }
     let _ = IN_TRACKER.try_with(|f| f.set(false));
 }
 
@@ -115,6 +187,8 @@ unsafe impl GlobalAlloc for Tracking {
                 );
             });
             leave();
+        } else if !ptr.is_null() && ENABLED.load(Ordering::Relaxed) {
+            pend(true, ptr.addr(), layout.size());
         }
         ptr
     }
@@ -164,6 +238,8 @@ unsafe impl GlobalAlloc for Tracking {
             if !really_free {
                 return; // Quarantined.
             }
+        } else if ENABLED.load(Ordering::Relaxed) {
+            pend(false, ptr.addr(), layout.size());
         }
         unsafe { System.dealloc(ptr, layout) }
     }
